@@ -1,94 +1,131 @@
 /-
-C01 — the rolling window is a view of the call log.
+C01 — the rolling window is a view of the call log, for EVERY window geometry.
 
-`Rep w t0 cur L`: the ring buffer `w` (40 buckets of 250 ms, as `newGoogleBreaker` builds it) represents the
+`Rep n d w t0 cur L`: the ring buffer `w` of `n ≥ 1` buckets of `d ≥ 1` ns each (any `NewRollingWindow(…, n, d)`
+without `IgnoreCurrentBucket`; `newGoogleBreaker` builds the instance n = 40, d = 250 ms) represents the
 abstract log `L : absolute bucket index → contents`, where index `j` covers the times
-`[t0 + j·250ms, t0 + (j+1)·250ms)`, `cur` is the index of the bucket `lastTime` starts, and the ring cell
-`(offset + 40 − a) % 40` holds the bucket of *age* `a` (index `cur − a`).
+`[t0 + j·d, t0 + (j+1)·d)`, `cur` is the index of the bucket `lastTime` starts, and the ring cell
+`(offset + n − a) % n` holds the bucket of *age* `a` (index `cur − a`).
+Nothing below depends on the numbers 40 / 250 ms: `n` and `d` are universally quantified.
 -/
 import GoZero.C01.Proofs
 namespace GoZero.C01
 
 def Lget (L : Nat → Bucket) (cur a : Nat) : Bucket := if a ≤ cur then L (cur - a) else {}
 
-structure Rep (w : RW) (t0 cur : Nat) (L : Nat → Bucket) : Prop where
-  size : w.size = 40
-  iv : w.interval = 250000000
-  len : w.buckets.length = 40
-  off : w.offset < 40
-  lt : w.lastTime = t0 + cur * 250000000
-  cells : ∀ a, a < 40 → w.buckets.getD ((w.offset + 40 - a) % 40) {} = Lget L cur a
+structure Rep (n d : Nat) (w : RW) (t0 cur : Nat) (L : Nat → Bucket) : Prop where
+  npos : 0 < n
+  dpos : 0 < d
+  size : w.size = n
+  iv : w.interval = d
+  len : w.buckets.length = n
+  off : w.offset < n
+  lt : w.lastTime = t0 + cur * d
+  cells : ∀ a, a < n → w.buckets.getD ((w.offset + n - a) % n) {} = Lget L cur a
   future : ∀ j, cur < j → L j = {}
 
-theorem rep_init (t0 : Nat) : Rep (RW.init nBuckets intervalNs t0) t0 0 (fun _ => {}) := by
-  refine ⟨rfl, rfl, by simp [RW.init, nBuckets], by simp [RW.init], by simp [RW.init], ?_, fun _ _ => rfl⟩
+/-- the only fact about `%` with a symbolic modulus that the proofs need: below `2n` it is one subtraction -/
+theorem mod2 (x n : Nat) (h : x < 2 * n) : (x < n ∧ x % n = x) ∨ (n ≤ x ∧ x % n = x - n) := by
+  by_cases hx : x < n
+  · exact Or.inl ⟨hx, Nat.mod_eq_of_lt hx⟩
+  · refine Or.inr ⟨by omega, ?_⟩
+    rw [Nat.mod_eq_sub_mod (by omega)]
+    exact Nat.mod_eq_of_lt (by omega)
+
+theorem rep_init (n d : Nat) (hn : 0 < n) (hd : 0 < d) (t0 : Nat) : Rep n d (RW.init n d t0) t0 0 (fun _ => {}) := by
+  refine ⟨hn, hd, rfl, rfl, by simp [RW.init], by simpa [RW.init] using hn, by simp [RW.init], ?_, fun _ _ => rfl⟩
   intro a ha
-  simp only [RW.init, nBuckets, List.getD_eq_getElem?_getD, List.getElem?_replicate, Lget]
-  have : (0 + 40 - a) % 40 < 40 := Nat.mod_lt _ (by decide)
+  simp only [RW.init, List.getD_eq_getElem?_getD, List.getElem?_replicate, Lget]
+  have : (n - a) % n < n := Nat.mod_lt _ hn
   simp [this]
 
 /-! ### the reset loop -/
 
-theorem resetFrom_length (bs : List Bucket) (start k : Nat) : (resetFrom 40 bs start k).length = bs.length := by
+theorem resetFrom_length (n : Nat) (bs : List Bucket) (start k : Nat) : (resetFrom n bs start k).length = bs.length := by
   induction k generalizing bs start with
   | zero => rfl
   | succ k ih => simp only [resetFrom]; rw [ih]; simp
 
 /-- after the loop, cell `p` is empty iff its cyclic distance from `start` is below the number of iterations -/
-theorem resetFrom_getD (bs : List Bucket) (hl : bs.length = 40) (start k p : Nat) (hp : p < 40) :
-    (resetFrom 40 bs start k).getD p {} = if (p + 40 - start % 40) % 40 < k then {} else bs.getD p {} := by
+theorem resetFrom_getD (n : Nat) (hn : 0 < n) (bs : List Bucket) (hl : bs.length = n) (start k p : Nat) (hp : p < n) :
+    (resetFrom n bs start k).getD p {} = if (p + n - start % n) % n < k then {} else bs.getD p {} := by
   induction k generalizing bs start with
   | zero => simp [resetFrom]
   | succ k ih =>
     simp only [resetFrom]
     rw [ih _ (by simp [hl])]
     simp only [List.getD_eq_getElem?_getD, List.getElem?_set, hl]
-    have hs : start % 40 < 40 := Nat.mod_lt _ (by decide)
-    by_cases h1 : (p + 40 - (start + 1) % 40) % 40 < k
-    · have : (p + 40 - start % 40) % 40 < k + 1 := by omega
+    have hs : start % n < n := Nat.mod_lt _ hn
+    have e0 : (start + 1) % n = (start % n + 1) % n := (Nat.mod_add_mod start n 1).symm
+    rw [e0]
+    generalize start % n = s at *
+    have m1 := mod2 (s + 1) n (by omega)
+    generalize (s + 1) % n = s1 at *
+    have m2 := mod2 (p + n - s1) n (by omega)
+    have m3 := mod2 (p + n - s) n (by omega)
+    generalize (p + n - s1) % n = x1 at *
+    generalize (p + n - s) % n = x0 at *
+    by_cases h1 : x1 < k
+    · have : x0 < k + 1 := by omega
       simp [h1, this]
-    · by_cases h2 : start % 40 = p
-      · have : (p + 40 - start % 40) % 40 < k + 1 := by omega
-        simp [h1, h2, hp]
-      · have : ¬ (p + 40 - start % 40) % 40 < k + 1 := by omega
+    · by_cases h2 : s = p
+      · have : x0 < k + 1 := by omega
+        simp [h1, h2, hp, this]
+      · have : ¬ x0 < k + 1 := by omega
         simp [h1, h2, this]
 
 /-! ### `updateOffset` moves the representation forward in time without changing the log -/
 
-theorem updateOffset_rep (w : RW) (t0 cur : Nat) (L : Nat → Bucket) (h : Rep w t0 cur L) (now : Nat)
-    (hm : w.lastTime ≤ now) : Rep (w.updateOffset now) t0 (cur + (now - w.lastTime) / 250000000) L := by
-  obtain ⟨hsz, hiv, hlen, hoff, hlt, hcells, hfut⟩ := h
-  have hspan : w.span now = if (now - w.lastTime) / 250000000 < 40 then (now - w.lastTime) / 250000000 else 40 := by
-    simp [RW.span, hsz, hiv]
-  generalize ho : (now - w.lastTime) / 250000000 = o at *
+theorem span_eq (n d : Nat) (w : RW) (hsz : w.size = n) (hiv : w.interval = d) (now : Nat) :
+    w.span now = if (now - w.lastTime) / d < n then (now - w.lastTime) / d else n := by
+  simp [RW.span, hsz, hiv]
+
+theorem updateOffset_rep (n d : Nat) (w : RW) (t0 cur : Nat) (L : Nat → Bucket) (h : Rep n d w t0 cur L) (now : Nat)
+    (hm : w.lastTime ≤ now) : Rep n d (w.updateOffset now) t0 (cur + (now - w.lastTime) / d) L := by
+  obtain ⟨hn, hd, hsz, hiv, hlen, hoff, hlt, hcells, hfut⟩ := h
+  have hspan := span_eq n d w hsz hiv now
+  have hdm : d * ((now - w.lastTime) / d) + (now - w.lastTime) % d = now - w.lastTime := Nat.div_add_mod _ _
+  generalize ho : (now - w.lastTime) / d = o at *
   unfold RW.updateOffset
   by_cases hz : w.span now = 0
   · have : o = 0 := by rw [hspan] at hz; split at hz <;> omega
     subst this
     simp only [hz, if_true, Nat.add_zero]
-    exact ⟨hsz, hiv, hlen, hoff, hlt, hcells, hfut⟩
+    exact ⟨hn, hd, hsz, hiv, hlen, hoff, hlt, hcells, hfut⟩
   · simp only [hz, if_false]
-    have hs40 : w.span now ≤ 40 := by rw [hspan]; split <;> omega
+    have hs40 : w.span now ≤ n := by rw [hspan]; split <;> omega
     have hso : w.span now ≤ o := by rw [hspan]; split <;> omega
-    refine ⟨hsz, hiv, ?_, ?_, ?_, ?_, ?_⟩
-    · simp [RW.updateOffset', resetFrom_length, hsz, hlen]
-    · simp only [RW.updateOffset', hsz]; exact Nat.mod_lt _ (by decide)
-    · simp only [RW.updateOffset', hiv]; omega
+    refine ⟨hn, hd, hsz, hiv, ?_, ?_, ?_, ?_, ?_⟩
+    · simp [RW.updateOffset', resetFrom_length, hlen]
+    · simp only [RW.updateOffset', hsz]; exact Nat.mod_lt _ hn
+    · simp only [RW.updateOffset', hiv]
+      have e1 : (cur + o) * d = cur * d + d * o := by rw [Nat.add_mul, Nat.mul_comm o d]
+      have hle : (now - w.lastTime) % d ≤ now - w.lastTime := Nat.mod_le _ _
+      omega
     · intro a ha
       simp only [RW.updateOffset', hsz]
-      rw [resetFrom_getD _ hlen _ _ _ (Nat.mod_lt _ (by decide))]
-      by_cases hlo : o < 40
+      rw [resetFrom_getD n hn _ hlen _ _ _ (Nat.mod_lt _ hn)]
+      by_cases hlo : o < n
       · have hsp : w.span now = o := by rw [hspan]; simp [hlo]
         rw [hsp]
+        have m1 := mod2 (w.offset + o) n (by omega)
+        generalize (w.offset + o) % n = q at *
+        have m2 := mod2 (q + n - a) n (by omega)
+        generalize hq : (q + n - a) % n = p at *
+        have m3 := mod2 (w.offset + 1) n (by omega)
+        generalize (w.offset + 1) % n = s at *
+        have m4 := mod2 (p + n - s) n (by omega)
+        generalize (p + n - s) % n = x at *
         by_cases hao : a < o
-        · have : (((w.offset + o) % 40 + 40 - a) % 40 + 40 - (w.offset + 1) % 40) % 40 < o := by omega
+        · have : x < o := by clear hdm hlt hm hso hs40 hspan hz; omega
           simp only [this, if_true, Lget]
           split
           · rw [hfut _ (by omega)]
           · rfl
-        · have : ¬ (((w.offset + o) % 40 + 40 - a) % 40 + 40 - (w.offset + 1) % 40) % 40 < o := by omega
+        · have : ¬ x < o := by clear hdm hlt hm hso hs40 hspan hz; omega
           simp only [this, if_false]
-          have hpos : ((w.offset + o) % 40 + 40 - a) % 40 = (w.offset + 40 - (a - o)) % 40 := by omega
+          have m5 := mod2 (w.offset + n - (a - o)) n (by omega)
+          have hpos : p = (w.offset + n - (a - o)) % n := by clear hdm hlt hm hso hs40 hspan hz m3 m4; omega
           rw [hpos, hcells (a - o) (by omega)]
           simp only [Lget]
           by_cases hc : a - o ≤ cur
@@ -97,9 +134,9 @@ theorem updateOffset_rep (w : RW) (t0 cur : Nat) (L : Nat → Bucket) (h : Rep w
             congr 1; omega
           · have : ¬ a ≤ cur + o := by omega
             simp [hc, this]
-      · have hsp : w.span now = 40 := by rw [hspan]; simp [hlo]
+      · have hsp : w.span now = n := by rw [hspan]; simp [hlo]
         rw [hsp]
-        have : (((w.offset + 40) % 40 + 40 - a) % 40 + 40 - (w.offset + 1) % 40) % 40 < 40 := Nat.mod_lt _ (by decide)
+        have : (((w.offset + n) % n + n - a) % n + n - (w.offset + 1) % n) % n < n := Nat.mod_lt _ hn
         simp only [this, if_true, Lget]
         split
         · rw [hfut _ (by omega)]
@@ -110,33 +147,35 @@ theorem updateOffset_rep (w : RW) (t0 cur : Nat) (L : Nat → Bucket) (h : Rep w
 
 def recordAt (L : Nat → Bucket) (j : Nat) (m : Mark) : Nat → Bucket := fun i => if i = j then (L i).add m else L i
 
-theorem add_rep (w : RW) (t0 cur : Nat) (L : Nat → Bucket) (h : Rep w t0 cur L) (now : Nat) (m : Mark)
+theorem add_rep (n d : Nat) (w : RW) (t0 cur : Nat) (L : Nat → Bucket) (h : Rep n d w t0 cur L) (now : Nat) (m : Mark)
     (hm : w.lastTime ≤ now) :
-    Rep (w.add now m) t0 (cur + (now - w.lastTime) / 250000000)
-      (recordAt L (cur + (now - w.lastTime) / 250000000) m) := by
-  have h' := updateOffset_rep w t0 cur L h now hm
-  generalize cur + (now - w.lastTime) / 250000000 = c at *
+    Rep n d (w.add now m) t0 (cur + (now - w.lastTime) / d)
+      (recordAt L (cur + (now - w.lastTime) / d) m) := by
+  have h' := updateOffset_rep n d w t0 cur L h now hm
+  generalize cur + (now - w.lastTime) / d = c at *
   unfold RW.add
   simp only []
   generalize w.updateOffset now = w' at *
-  obtain ⟨hsz, hiv, hlen, hoff, hlt, hcells, hfut⟩ := h'
-  refine ⟨hsz, hiv, by simp [hlen], hoff, hlt, ?_, ?_⟩
+  obtain ⟨hn, hd, hsz, hiv, hlen, hoff, hlt, hcells, hfut⟩ := h'
+  refine ⟨hn, hd, hsz, hiv, by simp [hlen], hoff, hlt, ?_, ?_⟩
   · intro a ha
     simp only [hsz, List.getD_eq_getElem?_getD, List.getElem?_modify]
-    have hp : (w'.offset + 40 - a) % 40 < 40 := Nat.mod_lt _ (by decide)
+    have hp : (w'.offset + n - a) % n < n := Nat.mod_lt _ hn
     have hget := hcells a ha
     simp only [List.getD_eq_getElem?_getD] at hget
-    have hsome : ∃ x, w'.buckets[(w'.offset + 40 - a) % 40]? = some x := by
-      have : (w'.offset + 40 - a) % 40 < w'.buckets.length := by omega
+    have hsome : ∃ x, w'.buckets[(w'.offset + n - a) % n]? = some x := by
+      have : (w'.offset + n - a) % n < w'.buckets.length := by omega
       exact ⟨_, List.getElem?_eq_getElem this⟩
     obtain ⟨x, hx⟩ := hsome
     rw [hx] at hget ⊢
     simp only [Option.getD_some, Option.map_eq_map, Option.map_some] at hget ⊢
+    have m0 : w'.offset % n = w'.offset := Nat.mod_eq_of_lt hoff
+    have m1 := mod2 (w'.offset + n - a) n (by omega)
     by_cases ha0 : a = 0
     · subst ha0
-      have : w'.offset % 40 = (w'.offset + 40 - 0) % 40 := by omega
+      have : w'.offset % n = (w'.offset + n - 0) % n := by omega
       simp only [this, if_true, hget, Lget, recordAt, Nat.zero_le, Nat.sub_zero]
-    · have : ¬ w'.offset % 40 = (w'.offset + 40 - a) % 40 := by omega
+    · have : ¬ w'.offset % n = (w'.offset + n - a) % n := by omega
       simp only [this, if_false, hget, Lget, recordAt]
       split
       · have : ¬ c - a = c := by omega
@@ -149,36 +188,37 @@ theorem add_rep (w : RW) (t0 cur : Nat) (L : Nat → Bucket) (h : Rep w t0 cur L
 
 /-! ### what `Reduce` visits -/
 
-/-- **The visible window is the log of the preceding 40 aligned buckets.**  At any time `now ≥ lastTime`, with
-`c = cur + ⌊(now − lastTime)/250ms⌋` the index of the current bucket, `Reduce` visits, oldest first, the log
-contents of the indices `c−39, …, cur` (the indices `cur+1 … c` are still empty and are skipped; if more than
-10 s have passed nothing is visited). -/
-theorem visible_spec (w : RW) (t0 cur : Nat) (L : Nat → Bucket) (h : Rep w t0 cur L) (now : Nat)
+/-- **The visible window is the log of the preceding `n` aligned buckets.**  At any time `now ≥ lastTime`, with
+`c = cur + ⌊(now − lastTime)/d⌋` the index of the current bucket, `Reduce` visits, oldest first, the log
+contents of the indices `c−(n−1), …, cur` (the indices `cur+1 … c` are still empty and are skipped; if `n·d` or
+more has passed nothing is visited). -/
+theorem visible_spec (n d : Nat) (w : RW) (t0 cur : Nat) (L : Nat → Bucket) (h : Rep n d w t0 cur L) (now : Nat)
     (hm : w.lastTime ≤ now) :
     w.visible now =
-      (List.range (40 - w.span now)).map fun i => Lget L (cur + (now - w.lastTime) / 250000000) (39 - i) := by
-  obtain ⟨hsz, hiv, hlen, hoff, hlt, hcells, hfut⟩ := h
-  have hspan : w.span now = if (now - w.lastTime) / 250000000 < 40 then (now - w.lastTime) / 250000000 else 40 := by
-    simp [RW.span, hsz, hiv]
-  generalize ho : (now - w.lastTime) / 250000000 = o at *
+      (List.range (n - w.span now)).map fun i => Lget L (cur + (now - w.lastTime) / d) (n - 1 - i) := by
+  obtain ⟨hn, hd, hsz, hiv, hlen, hoff, hlt, hcells, hfut⟩ := h
+  have hspan := span_eq n d w hsz hiv now
+  generalize ho : (now - w.lastTime) / d = o at *
   unfold RW.visible
   simp only [hsz]
   apply List.map_congr_left
   intro i hi
   simp only [List.mem_range] at hi
-  by_cases hlo : o < 40
+  by_cases hlo : o < n
   · have hsp : w.span now = o := by rw [hspan]; simp [hlo]
     rw [hsp] at hi ⊢
-    have hpos : (w.offset + o + 1 + i) % 40 = (w.offset + 40 - (39 - o - i)) % 40 := by omega
-    rw [hpos, hcells (39 - o - i) (by omega)]
+    have hpos : (w.offset + o + 1 + i) % n = (w.offset + n - (n - 1 - o - i)) % n := by
+      have e : w.offset + o + 1 + i = w.offset + n - (n - 1 - o - i) := by omega
+      rw [e]
+    rw [hpos, hcells (n - 1 - o - i) (by omega)]
     simp only [Lget]
-    by_cases hc : 39 - o - i ≤ cur
-    · have : 39 - i ≤ cur + o := by omega
+    by_cases hc : n - 1 - o - i ≤ cur
+    · have : n - 1 - i ≤ cur + o := by omega
       simp only [hc, this, if_true]
       congr 1; omega
-    · have : ¬ 39 - i ≤ cur + o := by omega
+    · have : ¬ n - 1 - i ≤ cur + o := by omega
       simp [hc, this]
-  · have hsp : w.span now = 40 := by rw [hspan]; simp [hlo]
+  · have hsp : w.span now = n := by rw [hspan]; simp [hlo]
     rw [hsp] at hi; omega
 
 end GoZero.C01
